@@ -17,9 +17,9 @@ import (
 
 // C12 — ReadCSV parses RFC 4180 input faithfully for any fragmentation of the stream.
 
-var evC12 = ev.New("C12", "document model (1-6 columns, 0-12 rows, or 1000-2500 rows for RowCountHint; cells over bytes without CR incl. delimiters, quotes, LF, blanks, numeric/boolean look-alikes, "+
-	"fields of 1015..4105 bytes with a quote/delimiter/LF at the buffer edges; optional quoting; LF/CRLF/mixed row ends; with/without final break; delimiters , ; tab | space x) x configuration "+
-	"(EmptyNull, IgnoreEmptyLines with injected blank lines, Headers, Types/EnumValues, RenameDuplicateColumns, MissingColumnNameAlias, RowCountHint) x read schedule "+
+var evC12 = ev.New("C12", "document model (1-6 columns, 0-12 rows, or 1000-2500 rows for RowCountHint; cells over bytes without CR incl. delimiters, quotes, LF, blanks, numeric/boolean look-alikes, number texts of structured floats in f/g/e/G spellings, "+
+	"fields of 1015..4105 bytes with a quote/delimiter/LF at the buffer edges; optional quoting; LF/CRLF/mixed row ends; with/without final break; documents padded to exactly 1023..4100 bytes (buffer size and its doublings +-1); delimiters , ; tab | space x) x configuration "+
+	"(EmptyNull, IgnoreEmptyLines with injected blank lines, Headers, Types/EnumValues, RenameDuplicateColumns, MissingColumnNameAlias, RowCountHint; the same option values optionally used for an earlier read) x read schedule "+
 	"(one read, all 1-byte reads, random 1-7, boundaries right after every quote/delimiter/line break, 1023/1024/1025; EOF with or after the last data); "+
 	"oracle: the frame (or the error) denoted by the document model; non-trivial = a quoted field holding a quote, delimiter or LF read in fragments of <=7 bytes, or a field of >=1024 bytes; "+
 	"distinct = FNV-64 of (document bytes, configuration, schedule)")
